@@ -343,6 +343,8 @@ def _norm(events):
 
 
 def eval_program(item):
+    import warnings
+    warnings.simplefilter("ignore", SyntaxWarning)      # `(f, g)(a, b)` is a function tensor in Guppy
     payload, pname, seq, body, nidx = item
     src = source(body)
     res = {"status": "", "dis": None, "runs": 0, "harness": None, "title": ""}
